@@ -91,6 +91,17 @@ UNITS += [
          ),
 ]
 
+UNITS += [
+    Unit(name="snapshot_cmp", file=S, anchor="fn cmp(&self, other: &Self) -> Ordering", within="impl Ord for SnapshotFile {", ret_name="r",
+         wrap_open="impl SnapshotFile {", wrap_close="}",
+         functions=["<repofile::snapshotfile::SnapshotFile as Ord>::cmp"],
+         contract="""
+    ensures
+        // the order `apply` sorts by is the order of the snapshot times
+        /*@snapshots_are_ordered_by_time*/ (r is Less || r is Equal) == snap_le(*self, *other), (r is Greater || r is Equal) == snap_le(*other, *self),
+"""),
+]
+
 KANI = [
     Harness("commands::forget::verif_kani::c09_matches_rule_table",
             functions=["commands::forget::KeepOptions::matches (counter logic; keep_within*/ids/tags empty)"],
